@@ -136,6 +136,9 @@ func Round(g *G, n int) []Program {
 			l := g.Len() + 1
 			a := g.Digits(l)
 			keep := 1 + g.R.Intn(l)
+			if g.R.Intn(4) == 0 {
+				keep = l // identical magnitudes: exact cancellation
+			}
 			b := a[:keep]
 			if keep < l {
 				b += g.Digits(l - keep)
